@@ -150,14 +150,14 @@ def worker(i, queue, results, lock, outf):
             pk = "./handler/sqlite/" if m["file"].startswith("handler/sqlite") else ("./middleware/prometheus/" if m["file"].startswith("middleware") else ".")
             ok = False
             for attempt in range(2):   # the repo has one timing-flaky test
-                rc, o = sh("go test -vet=off -count=1 -timeout 10m %s" % pk, cwd=w, env=env, timeout=900)
+                rc, o = sh("go test -vet=off -count=1 -timeout 100s %s" % pk, cwd=w, env=env, timeout=150)
                 if rc == 0: ok = True; break
             if not ok:
                 m["outcome"] = "killed-by-tests"
             else:
                 m["outcome"] = "MISSED"; m["runs"] = []
                 for c in m["checks"]:
-                    rc, o = sh(["./check", c, "quick"], cwd=v, env=env, timeout=3000)
+                    rc, o = sh(["./check", c, "quick"], cwd=v, env=env, timeout=900)
                     vio = [l for l in o.split("\n") if l.startswith("VIOLATION")]
                     head = [l for l in o.split("\n") if l.startswith("#")][:2]
                     m["runs"].append(dict(check=c, rc=rc, head=head))
